@@ -30,6 +30,10 @@ Extractors are registered per property in EXTRACTORS below (properties without a
                                       FenwickTree::get/set, bitenc mask/addr/get_by_addr/set_by_addr, bwt::bwt,
                                       utils::prescan) translated to Lean by tools/rs2lean.py; the equality theorems
                                       with the mirror models (Thm/GenSrc*.lean) are restated in Thm/C08|C18|C04.lean
+  C08 (genpm)    Gen/SrcShiftAndNext.lean, SrcKmpNext.lean, SrcHorspoolNext.lean, SrcBndmNext.lean, SrcBomNext.lean
+                                      constructors, find_all and Matches::next of ShiftAnd, KMP, Horspool, BNDM (search loops as
+                                      functions on the explicit iterator state); Thm/GenSrc*Next.lean, restated in Thm/C08.lean
+  C09 (genpm)    Gen/SrcHamming.lean  alignment::distance::hamming; Thm/GenSrcHamming.lean, restated in Thm/C09.lean
 
 RbV/Thm/C01.lean and RbV/Thm/C02.lean import RbV.Thm.GenLimits / RbV.Thm.GenTbCodes and restate their theorems as
 property theorems, and the C01/C02 spec/reference files (`Spec/Align.lean` `minScore`, `Ref/Banded.lean` `maxCells`) are
@@ -771,7 +775,19 @@ def gen_src(unit_name):
     hand-written mirror models live in Thm/GenSrc<Name>.lean and are restated in the property's Thm/Cxx.lean."""
     def run_src(repo):
         sys.path.insert(0, os.path.dirname(os.path.abspath(__file__)))
-        import rs2lean
+        # The translator exists in several *dialect modules* (one per builder who extended it in parallel: the base +
+        # bit-container constructs in rs2lean.py, the search-loop constructs in rs2lean_pm.py, …).  A unit is translated by
+        # the first module whose UNITS defines it; every module is a complete translator over the same semantics
+        # (lean/RbV/Basic/RsSem*.lean) and has its own --selftest.
+        import importlib
+        rs2lean = None
+        for modname in TRANSLATOR_MODULES:
+            mod = importlib.import_module(modname)
+            if unit_name in mod.UNITS:
+                rs2lean = mod
+                break
+        if rs2lean is None:
+            fail("translation unit %s is not defined by any of %s" % (unit_name, ", ".join(TRANSLATOR_MODULES)))
         u = rs2lean.UNITS[unit_name]
         s = Src(repo, u["file"])
         text, snippets = rs2lean.translate_unit(s, u, fail)
@@ -781,9 +797,15 @@ def gen_src(unit_name):
     return run_src
 
 
+# dialect modules of the Rust→Lean translator, in lookup order (tools/<name>.py)
+TRANSLATOR_MODULES = ["rs2lean", "rs2lean_pm"]
 GEN_SRC = {n: gen_src(n) for n in ("SrcKmpLps", "SrcShiftAndMasks", "SrcHorspoolNew", "SrcFenwick", "SrcBitEnc", "SrcBwt", "SrcPrescan")}
 # (genbits) bit-packed containers: SmallInts (C18, C03), RankSelect and WaveletMatrix (C17)
 GEN_SRC.update({n: gen_src(n) for n in ("SrcSmallInts", "SrcRankSelect", "SrcWavelet")})
+
+# genpm: search loops of the exact matchers (C08) and distance functions (C09)
+GEN_SRC.update({n: gen_src(n) for n in ("SrcShiftAndNext", "SrcKmpNext", "SrcHorspoolNext", "SrcBndmNext", "SrcBomNext")})
+GEN_SRC.update({n: gen_src(n) for n in ("SrcHamming",)})
 
 
 # ------------------------------------------------------------------------------------------ theorem modules built here
@@ -841,6 +863,11 @@ EXTRACTORS = {
 EXTRACTORS["C18"] = EXTRACTORS["C18"] + [GEN_SRC["SrcSmallInts"]]
 EXTRACTORS["C03"] = EXTRACTORS["C03"] + [GEN_SRC["SrcSmallInts"]]
 EXTRACTORS["C17"] = EXTRACTORS["C17"] + [GEN_SRC["SrcRankSelect"], GEN_SRC["SrcWavelet"]]
+
+# genpm: `Matches::next` of the exact matchers; Thm/C08.lean imports RbV.Thm.GenSrc*Next and restates the theorems
+EXTRACTORS["C08"] = EXTRACTORS["C08"] + [GEN_SRC[n] for n in ("SrcShiftAndNext", "SrcKmpNext", "SrcHorspoolNext", "SrcBndmNext", "SrcBomNext")]
+# genpm: C09 — Thm/C09.lean imports RbV.Thm.GenSrcHamming (…) and restates the theorems
+EXTRACTORS["C09"] = EXTRACTORS.get("C09", []) + [GEN_SRC[n] for n in ("SrcHamming",)]
 
 
 def main():
